@@ -313,4 +313,81 @@ theorem rejected_duplicate_already_reported (n : Nat) (ign : List Bool) (hist : 
       ∀ t v, p.2.err = some (t, v) → (ghostRun (Auth.init n ign) (fun _ => {}) hist w).nack = some t :=
   agree_run hist _ _ (inv_init n ign) (by intro p hp; simp [Auth.init] at hp) hf
 
+/-! ### a new watcher immediately receives the cached resource and the current error state -/
+
+/-- **C43, clause 5.** A watch on a resource that already has a state delivers to the new watcher, at once and in
+    this order: ResourceChanged(cached value) if there is one; the recorded NACK error if the last update was
+    rejected (AmbientError if something is cached, ResourceError otherwise); ResourceError(not found) if the
+    resource is marked non-existent. Under the state invariant these are exactly the five listed cases. The
+    watcher is registered, and the first watch of a resource subscribes it on the active server. -/
+theorem new_watcher_gets_cache_and_error_state (a : Auth) (k : Key) (w : Nat) :
+    (∀ r, lookup a.res k = some r → RInv r →
+      (watch a k w).cbs = (initialKinds r).map (fun kd => ⟨w, kd⟩) ∧
+      ((∃ c, r.cache = some c ∧ r.status = .acked ∧ initialKinds r = [.changed c]) ∨
+       (∃ c t v, r.cache = some c ∧ r.status = .nacked ∧ r.err = some (t, v) ∧
+          initialKinds r = [.changed c, .ambErr (.nack t)]) ∨
+       (r.cache = none ∧ r.status = .requested ∧ initialKinds r = []) ∨
+       (∃ t v, r.cache = none ∧ r.status = .nacked ∧ r.err = some (t, v) ∧ initialKinds r = [.resErr (.nack t)]) ∨
+       (r.cache = none ∧ r.status = .notExist ∧ initialKinds r = [.resErr .notFound])) ∧
+      (k, { r with watchers := r.watchers ++ [w] }) ∈ (watch a k w).auth.res) ∧
+    (lookup a.res k = none →
+      (watch a k w).cbs = [] ∧ Cmd.sub (channelToUse a).2.2 k ∈ (watch a k w).cmds ∧
+      (k, newRState w (channelToUse a).2.2) ∈ (watch a k w).auth.res) := by
+  constructor
+  · intro r hl hr
+    obtain ⟨h1, h2, h3, h4⟩ := hr
+    refine ⟨by simp [watch, hl, initialCbs], ?_, ?_⟩
+    · unfold initialKinds
+      cases hc : r.cache <;> cases hs : r.status <;> cases he : r.err <;> simp_all
+      all_goals exact ⟨_, rfl⟩
+    · simp only [watch, hl]
+      have := List.mem_map_of_mem (f := addWatcher k w) (lookup_mem hl)
+      simpa [addWatcher] using this
+  · intro hl
+    simp [watch, hl, initialCbs, initialKinds, newRState]
+
+/-! ### after all watchers are removed the resource is unsubscribed -/
+
+/-- removing the last watcher of a resource unsubscribes it on every server it was subscribed on and deletes
+    its state -/
+theorem last_unwatch_unsubscribes (a : Auth) (k : Key) (w : Nat) (r : RState) (hl : lookup a.res k = some r)
+    (hlast : r.watchers.filter (· ≠ w) = []) :
+    (∀ i ∈ r.chans, Cmd.unsub i k ∈ (unwatch a k w).cmds) ∧ ∀ p ∈ (unwatch a k w).auth.res, p.1 ≠ k := by
+  simp only [unwatch, hl, hlast, ne_eq, not_true_eq_false, ↓reduceIte]
+  split
+  · refine ⟨fun i hi => ?_, by simp⟩
+    simp only [List.mem_append, List.mem_map]
+    exact Or.inl ⟨i, hi, rfl⟩
+  · refine ⟨fun i hi => ?_, ?_⟩
+    · simp only [List.mem_map]; exact ⟨i, hi, rfl⟩
+    · intro p hp; simp only [List.mem_filter, decide_eq_true_eq] at hp; simpa using hp.2
+
+/-- the subscriptions held on the channels along a history: the commands applied to a ledger -/
+def ledgerRun : Auth → List (Nat × Key) → List AEv → List (Nat × Key)
+  | _, L, [] => L
+  | a, L, e :: es => ledgerRun (a.step e).auth (ledgerCmds L (a.step e).cmds) es
+
+theorem ledger_run (es : List AEv) (a : Auth) (L : List (Nat × Key)) (hi : AInv a) (hb : Bounded a) (hw : Watched a)
+    (hl : LedgerOK a L) (hf : FreshRun a es) :
+    LedgerOK (Auth.run a es) (ledgerRun a L es) ∧ Watched (Auth.run a es) := by
+  induction es generalizing a L with
+  | nil => exact ⟨hl, hw⟩
+  | cons e es ih =>
+    exact ih _ _ (inv_step hi hf.1) (bounded_step hb) (watched_step hi hw) (ledger_step hi hb hl) hf.2
+
+/-- **C43, clause 6.** In every history over a client with at least one server: the set of (server, resource)
+    subscriptions the authority holds (subscribe / unsubscribe / release commands it issued, accumulated) is at
+    every moment exactly {(i, k) | resource k has a state and i ∈ its channel set}, and a resource has a state
+    only while it has at least one watcher. Hence once all watchers of a resource are removed it is subscribed
+    nowhere. -/
+theorem unsubscribed_when_no_watchers (n : Nat) (ign : List Bool) (hn : 0 < n) (hist : List AEv)
+    (hf : FreshRun (Auth.init n ign) hist) (i : Nat) (k : Key) :
+    ((i, k) ∈ ledgerRun (Auth.init n ign) [] hist ↔
+      ∃ r, (k, r) ∈ (Auth.run (Auth.init n ign) hist).res ∧ i ∈ r.chans) ∧
+    ∀ p ∈ (Auth.run (Auth.init n ign) hist).res, p.2.watchers ≠ [] := by
+  have := ledger_run hist (Auth.init n ign) [] (inv_init n ign)
+    ⟨hn, by simp [Auth.init], by simp [Auth.init]⟩ (by intro p hp; simp [Auth.init] at hp)
+    (by intro i k; simp [Auth.init]) hf
+  exact ⟨this.1 i k, this.2⟩
+
 end GrpcProofs.C43
